@@ -161,7 +161,7 @@ func ZZ_C10_change_mapping_rescales() {
 	zzvCover("pre-state")
 	r := e.ChangeMapping(zzStub(2), store.SparseStoreConstructor, f)
 	rs := r.summaryStatistics
-	zzvAssert("result-has-its-own-statistics", rs != st)
+	zzvAssert("result-has-its-own-statistics", rs != st && zzvDisjoint(rs, st))
 	zzvAssert("count-kept", rs.Count() == c0)
 	zzvAssert("sum-rescaled", rs.Sum() == f*s0)
 	zzvAssert("extremes-rescaled", zzvAnd(rs.Min() == zzvIteF64(c0 == 0, mn0, f*mn0), rs.Max() == zzvIteF64(c0 == 0, mx0, f*mx0)) || c0 == 0)
